@@ -1,9 +1,30 @@
 /-
 C15 — Retained messages: latest per topic on new subscription, cleared by empty.
+
+Vocabulary (definitions in Proofs/Lemmas/Router/Rp2_*.lean):
+* `RetainedKeysUnique s` — the retained map has at most one entry per topic;
+* `RetainedFlagged s`    — every stored retained message has `retain = true` and a non-empty payload;
+* `matchingRetained s f` — the stored retained messages whose topic matches filter `f`;
+* `requestsOf s id`      — the data requests in the tracker of connection `id`;
+* `newRequest cur idx f group` — the request `prepare_filter` creates (`forwardRetained := group.isNone`);
+* `appendedEvents evs`   — the (filter index, stored copy) pairs of the `appended` events in `evs`;
+* `run2 s ops` / `Reachable2 cfg s` — fold of `step` over (operation, oracle choices) pairs from `init cfg`,
+                           stopping at the first error;
+* `retainedStep t cur e` / `retainedSpec t cur acc` — the C15 rule for one accepted publish `e` on the retained
+                           message `cur` of topic `t`, and its fold over a list of accepted publishes;
+* `Notif.content n`      — for a forward: (retain flag, payload, log cursor), cursor `none` = retained replay;
+* `fwdRetained`          — the replay-read step of `forward_device_data` (`forwardDeviceData_eq_rp2`
+                           shows the model's function is, definitionally, built from it).
 -/
-import Proofs.Lemmas.Router.Local
+import Proofs.Lemmas.Router.Rp2_Retained
+import Proofs.Lemmas.Router.Rp2_Will
+import Proofs.Lemmas.Router.Rp2_Examples
+import Proofs.Lemmas.Router.Rp2_Reach
+import Proofs.Lemmas.Router.Rp2_Replay
 namespace C15
 open Router
+
+/-! ### the retained map -/
 
 /-- the retained message of a topic after a publish on it: a retained publish replaces it, a
     retained publish with an empty payload removes it, a non-retained publish leaves it -/
@@ -17,13 +38,62 @@ theorem retained_of_other_topics_untouched (s : RState) (topic t' : String) (p :
     alookup t' (updateRetained s topic p).datalog.retained = alookup t' s.datalog.retained :=
   updateRetained_lookup_other s topic t' p h
 
-/-- a forward built from a log entry keeps the entry's retain flag, topic (unless an existing
-    broker alias replaces it) and payload, and carries the subscription's QoS -/
-theorem forward_keeps_content (qos : Nat) (alias : Option Nat) (ex : Bool) (sid : Option Nat) (p : Pub) :
-    (mkForward qos alias ex sid p).retain = p.retain ∧ (mkForward qos alias ex sid p).payload = p.payload ∧
-    (mkForward qos alias ex sid p).qos = qos ∧ (ex = false → (mkForward qos alias ex sid p).topic = p.topic) := by
-  unfold mkForward
-  cases alias <;> cases sid <;> cases ex <;> simp
+/-- the map keeps at most one message per topic, and what it stores is the publish as sent: with
+    the retain flag set and a payload (both invariants hold initially and are preserved by every
+    update of the map) -/
+theorem retained_map_stays_wellformed (s : RState) (topic : String) (p : Pub)
+    (hu : RetainedKeysUnique s) (hf : RetainedFlagged s) :
+    RetainedKeysUnique (updateRetained s topic p) ∧ RetainedFlagged (updateRetained s topic p) ∧
+    (∀ c, RetainedKeysUnique (init c) ∧ RetainedFlagged (init c)) :=
+  ⟨updateRetained_keysUnique s topic p hu, updateRetained_flagged s topic p hf,
+   fun _ => ⟨List.nodup_nil, fun _ h => absurd h (List.not_mem_nil)⟩⟩
+
+/-! ### who gets a replay -/
+
+/-- `replay_on_new_nonshared_subscription_only`, at `prepare_filter`: a filter that is new for
+    the connection creates exactly one request, which asks for the retained replay
+    (`forwardRetained = true`) exactly when the subscription is not a shared one; a repeated
+    subscription creates no request at all (tracker, parked requests and ready queue untouched),
+    so nothing is replayed for it -/
+theorem replay_on_new_nonshared_subscription_only (s s' : RState) (id : Nat) (cursor : Cursor) (idx : Nat)
+    (f : SubFilter) (group : Option String) (subId : Option Nat) (c : Conn) (hc : getConn s id = some c)
+    (h : prepareFilter s id cursor idx f group subId = .ok s') :
+    (c.subscriptions.contains f.path = false →
+        requestsOf s' id = some (c.tracker.requests ++ [newRequest cursor idx f group]) ∧
+        ((newRequest cursor idx f group).forwardRetained = true ↔ group = none)) ∧
+    (c.subscriptions.contains f.path = true →
+        requestsOf s' id = some c.tracker.requests ∧ s'.notifications = s.notifications ∧
+        s'.datalog = s.datalog ∧ s'.readyqueue = s.readyqueue) := by
+  refine ⟨fun hnew => ⟨prepareFilter_new_request hc hnew h, ?_⟩, fun hin => ?_⟩
+  · cases group <;> simp [newRequest]
+  · obtain ⟨a, b, c', d, _⟩ := prepareFilter_repeated_no_request hc hin h
+    exact ⟨a, b, c', d⟩
+
+/-- the same at the SUBSCRIBE packet (one acceptable filter): a request is created iff the filter
+    is new for the connection, and its replay flag is set iff the filter is not `$share/…` -/
+theorem subscribe_requests_replay_iff_new_and_not_shared (s s' : RState) (id : Nat) (cid : String)
+    (pkid : Nat) (subId : Option Nat) (f : SubFilter) (fl fl' : Flags) (c : Conn)
+    (hc : getConn s id = some c) (hv : validSubscription f.path = true) (hs : subId ≠ some 0)
+    (h : handlePacket s id cid (.subscribe pkid subId [f]) fl = .ok (s', fl')) :
+    (c.subscriptions.contains f.path = true → requestsOf s' id = some c.tracker.requests) ∧
+    (c.subscriptions.contains f.path = false → ∃ idx cursor,
+      requestsOf s' id = some (c.tracker.requests ++
+        [{ filter := f.path, filterIdx := idx, qos := f.qos, cursor := cursor,
+           forwardRetained := (extractGroup f.path).isNone, group := (extractGroup f.path).map (·.1) }])) :=
+  subscribe_one_filter_request hc hv hs h
+
+/-- `forward_retained_consumed_once`: whatever a sweep of the request does, the request handed
+    back has its replay flag cleared — unless the sweep stopped on a full inflight window before
+    reading anything (then nothing was replayed, the state is unchanged and the flag is kept for
+    the next sweep) -/
+theorem forward_retained_consumed_once (s s' : RState) (id : Nat) (c : Conn) (req req' : DataRequest)
+    (st : ConsumeStatus) (hc : getConn s id = some c)
+    (h : forwardDeviceData s id req = .ok (s', req', st)) :
+    (st = .inflightFull ∧ s' = s ∧ req'.forwardRetained = req.forwardRetained) ∨
+    (st ≠ .inflightFull ∧ req'.forwardRetained = false) :=
+  (forwardDeviceData_spec hc h).2.2.2.2.2
+
+/-! ### what is replayed -/
 
 /-- the replay set of a sweep is read from the retained map: exactly the retained messages whose
     topic matches the filter (for every iteration order the oracle supplies) -/
@@ -31,27 +101,162 @@ theorem replay_is_matching_retained (s s' : RState) (filter : String) (ps : List
     (h : readRetained s filter = .ok (s', ps)) :
     ∀ p ∈ ps, ∃ t, alookup t s.datalog.retained = some p ∧
       t ∈ (s.datalog.retained.filter (fun q => topicMatches q.1 filter)).map (·.1) := by
-  unfold readRetained at h
-  split at h
-  · rename_i order rest _
-    simp only [] at h
-    split at h
-    · rename_i hs
-      simp only [Except.ok.injEq, Prod.mk.injEq] at h
-      obtain ⟨_, hps⟩ := h
-      subst hps
-      intro p hp
-      simp only [List.mem_filterMap] at hp
-      obtain ⟨t, ht, hl⟩ := hp
-      refine ⟨t, hl, ?_⟩
-      -- `order` has the same members as the expected list
-      unfold sameMembers at hs
-      simp only [Bool.and_eq_true, beq_iff_eq, List.all_eq_true] at hs
-      have hc := hs.1 t ht
-      have : 0 < order.count t := List.count_pos_iff.mpr ht
-      have : 0 < ((s.datalog.retained.filter (fun q => topicMatches q.1 filter)).map (·.1)).count t := by omega
-      exact List.count_pos_iff.mp this
-    · simp at h
-  · simp at h
+  obtain ⟨order, rest, _, rfl, hperm, _⟩ := readRetained_spec h
+  intro p hp
+  simp only [List.mem_filterMap] at hp
+  obtain ⟨t, ht, hl⟩ := hp
+  exact ⟨t, hl, hperm.mem_iff.mp ht⟩
+
+/-- `replay_content`: the replayed list is exactly `order.filterMap lookup` for the iteration
+    order `order` the hash map produced, which is a permutation of the matching topics; hence (map
+    with unique keys) it is a permutation of the matching retained messages — each exactly once,
+    no other message — and every element carries the retain flag (flagged map) -/
+theorem replay_content (s s' : RState) (filter : String) (ps : List Pub)
+    (h : readRetained s filter = .ok (s', ps)) :
+    ∃ order rest, s.oracle = .retained order :: rest ∧
+      ps = order.filterMap (fun t => alookup t s.datalog.retained) ∧
+      order.Perm ((s.datalog.retained.filter (fun p => topicMatches p.1 filter)).map (·.1)) ∧
+      (RetainedKeysUnique s → ps.Perm (matchingRetained s filter)) ∧
+      (RetainedFlagged s → ∀ p ∈ ps, p.retain = true) := by
+  obtain ⟨order, rest, a, b, c, d⟩ := readRetained_spec h
+  exact ⟨order, rest, a, b, c, d, readRetained_flagged h⟩
+
+/-- the replay is read only for a request whose flag is set, is truncated to the free window
+    (`slots`: the free inflight slots for QoS > 0, `max_outgoing_packet_count` for QoS 0 — the
+    property's "provided those fit") and carries no log cursor; a request whose flag is clear
+    replays nothing -/
+theorem replay_truncated_to_window (s s1 : RState) (req : DataRequest) (slots slots' : Nat)
+    (rp : List (Pub × Option Cursor)) (h : fwdRetained s req slots = .ok (s1, rp, slots')) :
+    (req.forwardRetained = false ∧ rp = []) ∨
+    (req.forwardRetained = true ∧ ∃ ps, readRetained s req.filter = .ok (s1, ps) ∧
+        rp = (ps.take slots).map (fun p => (p, none)) ∧ rp.length ≤ slots) := by
+  rcases (fwdRetained_spec h).2.2 with ⟨a, b, _⟩ | ⟨a, ps, b, c⟩
+  · exact .inl ⟨a, b⟩
+  · exact .inr ⟨a, ps, b, c, by rw [c]; simp; exact Nat.min_le_left _ _⟩
+
+/-- delivery of the replay: a sweep of a request whose replay flag is set either stops on a full
+    inflight window (nothing happens), or reads the matching retained messages `ps` and — unless it
+    writes nothing at all to the link (nothing to send, or not this member's turn in a shared
+    group) — appends to the connection's own link one forward per message: first the replay
+    `ps.take slots`, each with its stored retain flag (set, in every reachable state) and payload
+    and with no cursor, then the live log entries with their cursors, then at most an `Unschedule` -/
+theorem replay_is_delivered_first_and_flagged (s s' : RState) (id : Nat) (c : Conn) (req req' : DataRequest)
+    (st : ConsumeStatus) (hc : getConn s id = some c) (hfr : req.forwardRetained = true)
+    (h : forwardDeviceData s id req = .ok (s', req', st)) :
+    (st = .inflightFull ∧ s' = s) ∨
+    ∃ (s1 : RState) (ps : List Pub) (slots : Nat),
+      readRetained s req.filter = .ok (s1, ps) ∧ (RetainedFlagged s → ∀ p ∈ ps, p.retain = true) ∧
+      ((getLink s' c.link).obuf = (getLink s c.link).obuf ∨
+       ∃ (live : List (Pub × Cursor)) (ns tail : List Notif),
+        (getLink s' c.link).obuf = (getLink s c.link).obuf ++ ns ++ tail ∧
+        (tail = [] ∨ tail = [Notif.unschedule]) ∧
+        ns.map Notif.content =
+          (ps.take slots).map (fun p => some (p.retain, p.payload, none)) ++
+          live.map (fun e => some (e.1.retain, e.1.payload, some e.2))) := by
+  rcases forwardDeviceData_replay hc hfr h with a | ⟨s1, ps, slots, hrr, hcase⟩
+  · exact .inl a
+  · exact .inr ⟨s1, ps, slots, hrr, readRetained_flagged hrr, hcase⟩
+
+/-- a forward built from a stored message keeps the message's retain flag, topic (unless an
+    existing broker alias replaces it) and payload, and carries the subscription's QoS: replayed
+    messages reach the subscriber flagged, live copies unflagged -/
+theorem forward_keeps_content (qos : Nat) (alias : Option Nat) (ex : Bool) (sid : Option Nat) (p : Pub) :
+    (mkForward qos alias ex sid p).retain = p.retain ∧ (mkForward qos alias ex sid p).payload = p.payload ∧
+    (mkForward qos alias ex sid p).qos = qos ∧ (ex = false → (mkForward qos alias ex sid p).topic = p.topic) := by
+  unfold mkForward
+  cases alias <;> cases sid <;> cases ex <;> simp
+
+/-! ### live copies -/
+
+/-- `live_copies_not_flagged`, client publishes: every copy a successful `append_to_commitlog`
+    appends to a filter log has `retain = false`, whatever the flag of the publish, while the
+    retained map is updated with the publish as sent (flag kept: a retained non-empty publish is
+    stored with `retain = true`) -/
+theorem live_copies_not_flagged (s s' : RState) (id : Nat) (p : Pub)
+    (h : appendToCommitlog s id p = .ok (s', none)) :
+    ∃ (q : Pub) (topic : String) (evs : List Ghost),
+      SamePublish p q ∧ s'.ghost = s.ghost ++ [.accepted (some id) q topic] ++ evs ∧
+      (∀ e ∈ appendedEvents evs, e.2.retain = false ∧ e.2.payload = p.payload) ∧
+      ((p.retain = true ∧ p.payload ≠ []) → alookup topic s'.datalog.retained = some q ∧ q.retain = true) := by
+  obtain ⟨q, topic, s0, s1, idxs, evs, sp, _, hd, _, _, _, hg, ha, _, hr, _⟩ := appendToCommitlog_ok h
+  refine ⟨q, topic, evs, sp, hg, ?_, ?_⟩
+  · intro e he
+    rw [ha] at he
+    simp only [List.mem_map] at he
+    obtain ⟨i, _, rfl⟩ := he
+    exact ⟨rfl, sp.payload⟩
+  · intro ⟨hret, hpay⟩
+    have hq : q.retain = true := sp.retain.trans hret
+    refine ⟨?_, hq⟩
+    rw [hr]
+    exact updateRetained_stores_flagged s0 topic q hq (by rw [sp.payload]; exact hpay)
+
+/-- `live_copies_not_flagged`, will publishes: the copies `handle_last_will` appends are unflagged
+    too, and the retained map is updated with the will as registered -/
+theorem will_copies_not_flagged (s s' : RState) (cid : String) (w : Will) (topic : String)
+    (hw : alookup cid s.lastWills = some w) (ht : utf8? w.topic = some topic)
+    (h : handleLastWill s cid = .ok s') :
+    ∃ evs, s'.ghost = s.ghost ++ [.willFired cid, .accepted none (willPub w) topic] ++ evs ∧
+      (∀ e ∈ appendedEvents evs, e.2.retain = false ∧ e.2.payload = w.payload) ∧
+      s'.datalog.retained = (updateRetained s topic (willPub w)).datalog.retained := by
+  obtain ⟨_, s0, s1, idxs, evs, _, _, _, hg, ha, _, hr, _⟩ := handleLastWill_fires hw ht h
+  refine ⟨evs, hg, ?_, hr⟩
+  intro e he
+  rw [ha] at he
+  simp only [List.mem_map] at he
+  obtain ⟨i, _, rfl⟩ := he
+  exact ⟨rfl, rfl⟩
+
+/-! ### every history -/
+
+/-- in every reachable state of the router model (any sequence of operations, any oracle choices)
+    the retained map has one entry per topic and every entry is flagged and non-empty -/
+theorem reachable_retained_map_wellformed (cfg : Config) (s : RState) (h : Reachable2 cfg s) :
+    RetainedKeysUnique s ∧ RetainedFlagged s := (reachable_histInv h).ret
+
+/-- `retained_map_is_latest` for whole histories: in every reachable state the retained message of
+    a topic `t` is the result of folding the C15 rule over all publishes accepted so far (client
+    publishes and wills, in acceptance order): a retained non-empty publish on `t` replaces it, a
+    retained empty one clears it, anything else leaves it (`retainedStep`) — i.e. the latest retained
+    publish on `t` since the last clearing one, or nothing -/
+theorem retained_map_is_latest_in_every_history (cfg : Config) (s : RState) (h : Reachable2 cfg s) (t : String) :
+    alookup t s.datalog.retained = retainedSpec t none (acceptedEvents s.ghost) :=
+  (reachable_histInv h).latest t
+
+/-- hence, in every reachable state and for every iteration order the hash map may produce, a
+    replay read returns a permutation of the retained messages matching the filter — each exactly
+    once, nothing else — all of them flagged as retained -/
+theorem replay_content_in_every_history (cfg : Config) (s s' : RState) (choices : List Choice)
+    (filter : String) (ps : List Pub) (hr : Reachable2 cfg s)
+    (h : readRetained { s with oracle := choices } filter = .ok (s', ps)) :
+    ps.Perm (matchingRetained s filter) ∧ ∀ p ∈ ps, p.retain = true := by
+  have hi := (reachable_histInv hr).ret
+  obtain ⟨_, _, _, _, _, hperm⟩ := readRetained_spec h
+  exact ⟨hperm hi.1, readRetained_flagged h hi.2⟩
+
+/-- `live_copies_not_flagged` for whole histories: every copy ever appended to a filter log (the
+    `appended` events of the ghost history, emitted exactly by `Data::append`) is unflagged -/
+theorem live_copies_never_flagged (cfg : Config) (s : RState) (h : Reachable2 cfg s) :
+    ∀ e ∈ appendedEvents s.ghost, e.2.retain = false := (reachable_histInv h).copies
+
+/-! ### non-vacuity -/
+
+/-- a retained publish on "t" is stored flagged, and the next replay read for filter "t" returns it -/
+example : ∃ s1 fl1 s2 ps, handlePacket exState 0 "a" (.publish exPubR) {} = .ok (s1, fl1) ∧
+    alookup "t" s1.datalog.retained = some exPubR ∧
+    readRetained { s1 with oracle := [.retained ["t"]] } "t" = .ok (s2, ps) ∧ ps = [exPubR] :=
+  ⟨_, _, _, _, rfl, rfl, rfl, rfl⟩
+
+/-- a new non-shared subscription gets a request with the replay flag; the repeated one none -/
+example : ∃ s1 fl1 s2 fl2,
+    handlePacket exState 0 "a" (.subscribe 1 none [{ path := "t", qos := 1 }]) {} = .ok (s1, fl1) ∧
+    (requestsOf s1 0).map (·.map (·.forwardRetained)) = some [true] ∧
+    handlePacket s1 0 "a" (.subscribe 2 none [{ path := "t", qos := 1 }]) {} = .ok (s2, fl2) ∧
+    (requestsOf s2 0).map (·.map (·.forwardRetained)) = some [true] :=
+  ⟨_, _, _, _, rfl, rfl, rfl, rfl⟩
+
+/-- a reachable state with a retained message: CONNECT, push a retained PUBLISH, DeviceData -/
+example : ∃ s, Reachable2 exConfig s ∧ alookup "t" s.datalog.retained = some exPubR :=
+  ⟨_, ⟨[(.connect exSpecWill, []), (.push 0 (.publish exPubR), []), (.event 0 .deviceData, [.matches []])], rfl⟩, rfl⟩
 
 end C15
